@@ -67,3 +67,19 @@ Theorem C01_Resize_and_RandomScale_same_shape :
   (forall v sc ip c r s, vshape (RandomScale_apply v sc ip c r s) = vshape (RandomScale_apply_to_mask v sc ip c r s)).
 Proof. split; [exact Resize_image_and_mask | intros; apply RandomScale_image_and_mask]. Qed.
 Print Assumptions C01_Resize_and_RandomScale_same_shape.
+
+(* CropAndPad (image path generated: crop, constant/edge/... pad, optional resize back): the shape of the
+   result is a function of the window, the pad amounts and keep_size alone, so image and mask -- which differ in
+   fill value and interpolation order only -- come back with one shape *)
+From DV.proofs Require Import CropPad.
+From DV.gen Require Import Gen_cls_crops_dicom.
+Theorem C01_CropAndPad_image_and_mask_same_shape : forall keep pm v cp pp pv pvm rr rc rs ip c r s vi vm,
+  CropAndPad_apply keep pm v cp pp pv pvm rr rc rs ip c r s = Ok vi ->
+  CropAndPad_apply_to_mask keep pm v cp pp pv pvm rr rc rs ip c r s = Ok vm ->
+  vshape vi = vshape vm /\ vshape vi = cp_shape (vshape v) cp pp r c s keep.
+Proof.
+  intros keep pm v cp pp pv pvm rr rc rs ip c r s vi vm A B. split.
+  - exact (CropAndPad_image_and_mask_same_shape _ _ _ _ _ _ _ _ _ _ _ _ _ _ _ _ A B).
+  - unfold CropAndPad_apply in A. exact (crop_and_pad_shape _ _ _ _ _ _ _ _ _ _ _ A).
+Qed.
+Print Assumptions C01_CropAndPad_image_and_mask_same_shape.
